@@ -101,7 +101,12 @@ class Patched:
         return False
 
 
+_MODELS = {}     # per worker process: one model object per POI range, reused across cases (history on the same object)
+
+
 def make_model(pyhf, lo, hi):
+    if (lo, hi) in _MODELS:
+        return _MODELS[(lo, hi)]
     spec = {"channels": [{"name": "c", "samples": [
         {"name": "s", "data": [5.0], "modifiers": [{"name": "mu", "type": "normfactor", "data": None}]},
         {"name": "b", "data": [50.0], "modifiers": [{"name": "unc", "type": "shapesys", "data": [7.0]}]}]}],
@@ -110,6 +115,7 @@ def make_model(pyhf, lo, hi):
     b = m.config.suggested_bounds()[m.config.par_slice("mu").start]
     if [float(b[0]), float(b[1])] != [lo, hi]:
         raise RuntimeError(f"could not set the POI bounds of the replay model: {b} != {[lo, hi]}")
+    _MODELS[(lo, hi)] = m
     return m
 
 
